@@ -233,7 +233,7 @@ def execute(case):
     out = Outcome()
     bw.reset()
     routes = [(PATTERNS[p % len(PATTERNS)], a) for p, a in case['routes']]
-    node = bw.Node(NODE, rx_routes=routes, tx_routes=[('.*', 'dtn://next/', None)], apps=APPS)
+    node = bw.Node(NODE, rx_routes=routes, tx_routes=[('.*', 'dtn://next/', None)], apps=APPS, strict_routes=False)
     finishes = []
     orig_finish = node.agent._finish_bundle
 
